@@ -432,7 +432,7 @@ pub fn judge<P: ParamGuard>(
                 Ok(Err(_)) => out.fit_errors_on_valid += 1,
                 Err(p) => {
                     out.panics_on_valid_both_forms += 1;
-                    out.notes.push(format!("{} {} panics on accepted parameters in BOTH forms (outside this property): {} at {}", b, op.name, trunc(p), point));
+                    out.notes.push(format!("{} {} panics on accepted parameters in BOTH the checked and the unchecked form (outside this property): {}", b, op.name, trunc(&p.replace('\n', " "))));
                 }
             }
         } else {
